@@ -880,6 +880,26 @@ Fixpoint repair_walk (fuel : nat) (objs : store) (s : sstate) (base : oid) (comm
       end
   end.
 
+(* the new stack base: the commit below the bottommost commit on the path that is, or is to
+   become, an applied patch; the branch head when there is none *)
+Fixpoint repair_base (fuel : nat) (objs : store) (s : sstate) (base : oid) (commit : oid)
+         (nb : oid) (maybe_nonempty : bool) : oid :=
+  match fuel with
+  | O => nb
+  | S fuel' =>
+      match parents_of objs commit with
+      | [parent] =>
+          let '(nb', maybe') :=
+            match patch_of_commit s commit with
+            | Some _ => (parent, false)
+            | None => (nb, true)
+            end in
+          if Nat.eqb base parent then (if maybe' then parent else nb')
+          else repair_base fuel' objs s base parent nb' maybe'
+      | _ => nb
+      end
+  end.
+
 Section Repair.
   Variable lower_s : str -> str.
 
@@ -889,8 +909,10 @@ Section Repair.
     | Some op =>
         let w1 := op_world op in
         let s := op_state op in
-        let '(applied_rev, patchify_rev, stop) :=
+        let '(applied_rev, patchify_rev, _) :=
           repair_walk (S (length (w_objs w1))) (w_objs w1) s (op_base op) (w_branch w1) [] [] [] in
+        let new_base :=
+          repair_base (S (length (w_objs w1))) (w_objs w1) s (op_base op) (w_branch w1) (w_branch w1) false in
         let applied := rev applied_rev in
         let patchify := rev patchify_rev in
         let notin := fun n => negb (mem n applied) in
@@ -900,8 +922,8 @@ Section Repair.
           (fun t =>
              tbind (repair_appliedness applied unapplied hidden t)
                (fun t0 =>
-                  (* trans.set_base(commit.id): the commit where the walk stopped *)
-                  let t1 := set_base t0 (Some stop) in
+                  (* trans.set_base(new_base_id) *)
+                  let t1 := set_base t0 (Some new_base) in
                   fold_left
                     (fun r c =>
                        tbind r (fun t =>
